@@ -1,0 +1,31 @@
+//go:build verif
+
+package lalr
+
+// VerifReduceLA is one reduce transition of the automaton with the lookahead
+// set that ComputeLALR attached to it (symbol ids as in G.Symbols).
+type VerifReduceLA struct {
+	State     int
+	Rule      int
+	LookAhead []int
+}
+
+// VerifReduceLookaheads is a read-only accessor used by the verification
+// harness in /verif (build tag "verif"). LALR1.trans is unexported and
+// LookAheadSet is keyed by its indices, so the (state, rule) of each entry
+// cannot be recovered from exported data alone.
+func (lalr *LALR1) VerifReduceLookaheads() []VerifReduceLA {
+	res := []VerifReduceLA{}
+	for _, tr := range lalr.trans {
+		if tr.sym_or_rule&CheckMask == 0 {
+			continue
+		}
+		la := append([]int{}, lalr.LookAheadSet[tr.Index]...)
+		res = append(res, VerifReduceLA{
+			State:     tr.q,
+			Rule:      int(tr.sym_or_rule & Mask),
+			LookAhead: la,
+		})
+	}
+	return res
+}
